@@ -34,6 +34,17 @@ CHECKS = {
              "and table cells with runs of spaces are covered by a separate space.",
         note="Trusted: Reader A for the meaning-preservation precondition. The newline-next-to-tag exception is implemented as: such gaps only vary between 1 and 2 spaces; histories whose first pass creates a tag-adjacent newline are skipped and counted.",
         ref="DESIGN.md §2 C03"),
+    "C04": dict(
+        level="exploration",
+        technique="bounded-exhaustive enumeration of literal-span documents x option settings; sequence comparison of extracted spans (two readers for code blocks)",
+        text="Every code block of the space (fence character x length x info string x every content line sequence over an 18-line alphabet "
+             "including fence-like, prefix-like, blank, tab and trailing-space lines x container contexts x terminated/unterminated) and every "
+             "sequence of literal-span tokens (code spans with every backtick configuration, links/images with every destination/title style, "
+             "autolinks, bare URLs, inline HTML, template tags, comments) next to typography tokens in paragraphs, headings, list items and table "
+             "cells is formatted under the typography/cleanup settings of the tier (all 8 combinations x widths x modes in thorough) and the "
+             "sequence of literal spans extracted from the output must equal that of the input.",
+        note="Trusted: the span extractor (vf/spans.py: Reader A + a hand-written tag scanner), markdown-it-py for the fence-sufficiency clause.",
+        ref="DESIGN.md §2 C04"),
     "C05": dict(
         level="model_checking",
         technique="explicit-state model of the greedy filler, exhaustive trace enumeration + replay of every trace against the implementation",
